@@ -26,6 +26,8 @@ ANCHORS = [("deap/benchmarks/__init__.py", []), ("deap/benchmarks/binary.py", []
            ("deap/benchmarks/movingpeaks.py", ["cone", "sphere", "function1", "MovingPeaks"]),
            ("deap/benchmarks/tools.py", ["translate", "rotate", "noise", "scale", "bound"])]
 LEVEL = "proof"
+STRENGTH = "partial"
+MIN_CASES = 5000
 RULE = ("continuous/gp/multi-objective: every function x dimensions 0..30 as it allows (DTLZ: 2..6 objectives, "
         "n >= M-1) x random points of the documented range + its corners + the documented optimum; binary: "
         "exhaustive bit strings up to 9 bits quick / 12 bits thorough + random 13..80-bit strings (royal-road block "
@@ -41,7 +43,12 @@ TRUSTED = ["IEEE-754 / libm: the Float instance of the model calls the same corr
            "CPython 3.12 sums floats with compensation, the model sums naively)",
            "numpy.linalg.inv as a parameter with the contract inv(R) R = I (rotate); numpy.dot as row inner products",
            "random.random/uniform/gauss/randrange/choice as sources of arbitrary draws (recorded tape)"]
-ASSUMPTIONS = ["inputs are finite doubles in (or near) the documented range; bit strings are 0/1 lists",
+ASSUMPTIONS = ["inputs are finite doubles in (or near) the documented range, as Python lists or numpy arrays",
+               "binary individuals are sequences of the ints 0/1 (the source rejects True/False and 1.0/0.0 through "
+               "int(''.join(map(str, ...)), 2)); the model type for them is List Bool",
+               "readings (DESIGN section 6): where a docstring and the cited source disagree the cited source is the published "
+               "definition — rastrigin_skew uses cos(2 pi y_i) (Hansen & Kern 2004), movingpeaks.function1 is h / (1 + w |x-p|^2) "
+               "(Branke 1999, no square root), chuang_f3's optima are 0...0 and 11 0...0 11 (not all ones)",
                "theorems are over the reals / exact rationals; equality of each float function with its definition is a "
                "tolerance correspondence (partial)"]
 EXPLANATION = ("Front identities (DTLZ1 sum, DTLZ2-6 norm, ZDT f2 = g h), the exactly documented optima, the binary "
@@ -331,23 +338,47 @@ def call_impl(f, *args):
         return None, type(e).__name__
 
 
+def as_ind(d, x):
+    """the individual as the case asks for it: a Python list, or a numpy array (`np`)"""
+    return numpy.array(x) if d.get("np") else list(x)
+
+
+def arity_error(name, res, n):
+    """'one entry per objective': the functions of benchmarks/__init__.py and binary.py return a tuple (DTLZ: a list)
+    with exactly the documented number of objectives — a bare number (the missing-comma bug) is rejected"""
+    if not isinstance(res, (tuple, list)):
+        return "%s returns the bare value %r instead of a sequence with one entry per objective" % (name, res)
+    if len(res) != n:
+        return "%s returns %d entries for %d objective(s)" % (name, len(res), n)
+    return None
+
+
 def ev_single(d):
     name, x = d["name"], [float(v) for v in d["x"]]
-    res, err = call_impl(IMPL1[name], list(x))
+    res, err = call_impl(IMPL1[name], as_ind(d, x))
     line = "C20 f %s %s" % (name, fl(x))
     tag = "f/%s/%s" % (name, d.get("cat", "rand"))
     if err:
         return Case(d, [line], ["error"], None, tag=tag + "/error", nontrivial=False)
-    val = res[0] if isinstance(res, tuple) else res
-    orc = None
-    if isinstance(res, tuple) and len(res) != 1:
-        orc = "%s returns %d objectives, one expected" % (name, len(res))
+    if name in GPNAMES:
+        # the symbolic-regression targets of gp.py return the bare target value by design
+        if isinstance(res, (tuple, list)):
+            return Case(d, [line], ["?"], "%s returns %r, a bare number expected" % (name, res), tag=tag)
+        val, orc = float(res), None
+    else:
+        orc = arity_error(name, res, 1)
+        if orc is not None:
+            return Case(d, [line], ["?"], orc, tag=tag)
+        val = float(res[0])
     if orc is None:
         try:
             ref = REF1[name](x)
         except (IndexError, ZeroDivisionError):
             ref = None
         scale_ = max(1.0, abs(ref)) if ref is not None else 1.0
+        if ref is None and d.get("np"):
+            # numpy scalars divide by zero to inf/nan (with a warning) where Python floats raise: still "undefined"
+            return Case(d, [line], ["error"], None, tag=tag + "/error", nontrivial=False)
         if ref is None:
             orc = "implementation returns %r where the defining formula is undefined" % (val,)
         elif not close(val, ref, 1e-9, 1e-9 * scale_ if name not in CANCEL else 1e-7):
@@ -364,11 +395,13 @@ def ev_single(d):
 
 def ev_shekel(d):
     x, a, c = d["x"], d["a"], d["c"]
-    res, err = call_impl(benchmarks.shekel, list(x), [list(r) for r in a], list(c))
+    res, err = call_impl(benchmarks.shekel, as_ind(d, x), [list(r) for r in a], list(c))
     line = "C20 shekel %s %s %s" % (fl(x), fl2(a), fl(c))
     if err:
         return Case(d, [line], ["error"], None, tag="f/shekel/error", nontrivial=False)
-    val = res[0]
+    if arity_error("shekel", res, 1):
+        return Case(d, [line], ["?"], arity_error("shekel", res, 1), tag="f/shekel/arity")
+    val = float(res[0])
     ref = sum(1.0 / (c[i] + sum((x[j] - a[i][j]) ** 2 for j in range(len(a[i])))) for i in range(len(c)))
     orc = None if close(val, ref, 1e-9, 1e-9) else "shekel = %r differs from the published formula %r" % (val, ref)
     if orc is None and d.get("cat") == "opt":
@@ -394,11 +427,13 @@ def ev_mo(d):
             extra.append(fbits(0.85))
         else:
             args.append(d["lam"]); extra.append(fbits(d["lam"]))
-    res, err = call_impl(getattr(benchmarks, name), list(x), *args)
+    res, err = call_impl(getattr(benchmarks, name), as_ind(d, x), *args)
     line = "C20 mo %s %s%s" % (name, fl(x), "".join(" " + e for e in extra))
     tag = "mo/%s%s/%s" % (name, "/M=%d" % d["M"] if name in DTLZ else "", d.get("cat", "rand"))
     if err:
         return Case(d, [line], ["error"], None, tag="mo/%s/error" % name, nontrivial=False)
+    if not isinstance(res, (tuple, list)):
+        return Case(d, [line], ["?"], arity_error(name, res, d.get("M", 2)), tag="mo/%s/arity" % name)
     f = [float(v) for v in res]
     orc = None
     if name in ("dtlz5", "dtlz6") and d["M"] == 1:
@@ -483,11 +518,19 @@ def ev_bin(d):
     args = [d["order"]] if name.startswith("royal") else []
     line = "C20 bin %s %s%s" % (name, d["bits"], "".join(" %d" % a for a in args))
     tag = "bin/%s/%s" % (name, d.get("cat", "rand"))
-    res, err = call_impl(f, list(b), *args)
+    res, err = call_impl(f, numpy.array(b, dtype=int) if d.get("np") else list(b), *args)
     if err:
         return Case(d, [line], ["error" if not name.startswith("royal") else "none"], None, tag="bin/%s/error" % name,
                     nontrivial=False)
-    val = res[0] if isinstance(res, tuple) else res
+    if name in ("trap", "inv_trap"):
+        # the two building blocks return the bare integer (chuang_f* add them up)
+        if isinstance(res, (tuple, list)):
+            return Case(d, [line], ["?"], "%s returns %r, a bare integer expected" % (name, res), tag=tag)
+        val = int(res)
+    else:
+        if arity_error(name, res, 1):
+            return Case(d, [line], ["?"], arity_error(name, res, 1), tag="bin/%s/arity" % name)
+        val = int(res[0])
     want = o_binary(name, b, d.get("order"))
     orc = None if val == want else "%s(%s) = %r, definition gives %r" % (name, d["bits"], val, want)
     if orc is None and d.get("opt") is not None and val != d["opt"]:
@@ -498,11 +541,23 @@ def ev_bin(d):
 class Recorder(object):
     """wrapped evaluation function that records what it receives"""
     def __init__(self, nobj=1):
-        self.got, self.nobj = None, nobj
+        self.got, self.nobj, self.args, self.kargs = None, nobj, None, None
 
     def __call__(self, individual, *a, **k):
-        self.got = individual
+        self.got, self.args, self.kargs = individual, a, k
         return tuple(0.0 for _ in range(self.nobj))
+
+
+EXTRA_ARGS, EXTRA_KARGS = (7, "a"), {"key": 3.5}
+
+
+def passthrough_error(rec):
+    """extra positional / keyword arguments of the decorated call must reach the wrapped function unchanged
+    (outside the statement, hence reported as a model/implementation difference)"""
+    if rec.args != EXTRA_ARGS or rec.kargs != EXTRA_KARGS:
+        return "CORRESPONDENCE: extra arguments %r %r reached the wrapped function as %r %r" % (
+            EXTRA_ARGS, EXTRA_KARGS, rec.args, rec.kargs)
+    return None
 
 
 def ev_b2f(d):
@@ -511,7 +566,7 @@ def ev_b2f(d):
     line = "C20 b2f %s %s %d %s" % (sfr(Fr(mn)), sfr(Fr(mx)), nb, d["bits"])
     tag = "b2f/nbits=%d/%s" % (nb, d.get("cat", "rand"))
     try:
-        binary.bin2float(mn, mx, nb)(rec)(list(b))
+        binary.bin2float(mn, mx, nb)(rec)(numpy.array(b, dtype=int) if d.get("np") else list(b), *EXTRA_ARGS, **EXTRA_KARGS)
     except ZeroDivisionError:
         return Case(d, [line], ["error"], None, tag="b2f/error", nontrivial=False)
     got = list(rec.got)
@@ -527,6 +582,7 @@ def ev_b2f(d):
                 orc = "decoded %r, definition min + gene/(2^n-1) (max-min) = %r" % (g, float(e))
             elif not (min(mn, mx) - 1e-12 * span <= g <= max(mn, mx) + 1e-12 * span):
                 orc = "decoded %r outside [%r, %r]" % (g, mn, mx)
+    orc = orc or passthrough_error(rec)
     return Case(d, [line], ["%s %s" % (fl(got), ",".join(sfr(e) for e in exact) if exact else "-")], orc, tag=tag,
                 tol=TOL)
 
@@ -569,7 +625,7 @@ def ev_translate(d):
         return ev_history(d, "translate")
     t, x = d["t"], d["x"]
     rec = Recorder()
-    btools.translate(list(t))(rec)(list(x))
+    btools.translate(list(t))(rec)(as_ind(d, x), *EXTRA_ARGS, **EXTRA_KARGS)
     got = list(rec.got)
     want = [Fr(a) - Fr(b) for a, b in zip(x, t)]
     orc = None
@@ -581,6 +637,7 @@ def ev_translate(d):
         bad = any(not close(g, float(w), 1e-12, 1e-12) for g, w in zip(got, want))
     if bad:
         orc = "translate handed %r to the function, x - t = %r" % (got, [float(w) for w in want])
+    orc = orc or passthrough_error(rec)
     return Case(d, ["C20 translate %s %s" % (fl(t), fl(x))], [fl(got)], orc,
                 tag="dec/translate/n=%d%s" % (len(x), "" if len(t) == len(x) else "/len-mismatch"), tol=TOL)
 
@@ -595,7 +652,7 @@ def ev_scale(d):
         dec = btools.scale(list(f))(rec)
     except ZeroDivisionError:
         return Case(d, [line], ["error"], None, tag="dec/scale/error", nontrivial=False)
-    dec(list(x))
+    dec(as_ind(d, x), *EXTRA_ARGS, **EXTRA_KARGS)
     got = list(rec.got)
     want = [Fr(a) / Fr(b) for a, b in zip(x, f)]
     orc = None
@@ -606,6 +663,7 @@ def ev_scale(d):
             orc = "scale handed %r, x / factor = %r" % (got, [float(w) for w in want])
     elif any(not close(g, float(w), 1e-12, 1e-300) for g, w in zip(got, want)):
         orc = "scale handed %r, x / factor = %r" % (got, [float(w) for w in want])
+    orc = orc or passthrough_error(rec)
     return Case(d, [line], [fl(got)], orc, tag="dec/scale/%s" % ("pow2" if d.get("exact") else "general"), tol=TOL)
 
 
@@ -616,13 +674,14 @@ def ev_rotate(d):
     rec = Recorder()
     dec = btools.rotate(R)
     minv = dec.matrix
-    dec(rec)(list(x))
+    dec(rec)(as_ind(d, x), *EXTRA_ARGS, **EXTRA_KARGS)
     got = [float(v) for v in rec.got]
     back = R.dot(numpy.array(got))            # R (R^-1 x) must be x
     nx = max(1.0, max([abs(v) for v in x] or [0.0]))
     orc = None
     if len(got) != len(x) or any(abs(a - b) > 1e-9 * nx for a, b in zip(back, x)):
         orc = "rotate handed %r; rotating it back gives %r, individual %r" % (got, list(back), x)
+    orc = orc or passthrough_error(rec)
     return Case(d, ["C20 rotate %s %s" % (fl2(minv.tolist()), fl(x))], [fl(got)], orc,
                 tag="dec/rotate/%s/n=%d" % (d.get("cat", "rand"), len(x)), tol=TOL)
 
@@ -748,11 +807,30 @@ def mp_limits(d):
     return None, d["npeaks"]
 
 
+def _d2(x, p):
+    return math.fsum((a - b) ** 2 for a, b in zip(x, p))
+
+
+# the peak functions, written from the cited source (Branke 1999 / movpeaks.c), independent of the implementation:
+# cone h - w |x-p|, function1 h / (1 + w |x-p|^2) (no square root, unlike DEAP's docstring), and DEAP's own `sphere`
+# peak h |x-p|^2 (undocumented; taken as its name says)
+O_PEAK = {"c": lambda x, p, h, w: h - w * math.sqrt(_d2(x, p)),
+          "s": lambda x, p, h, w: h * _d2(x, p),
+          "f": lambda x, p, h, w: h / (1 + w * _d2(x, p))}
+
+
 def mp_values(mp, x):
-    vals = [f(x, p, h, w) for f, p, h, w in zip(mp.peaks_function, mp.peaks_position, mp.peaks_height, mp.peaks_width)]
+    """the separately evaluated peak (and basis) values, by the oracle's own formulas"""
+    vals = [O_PEAK[PFL[f]](x, p, h, w) for f, p, h, w in
+            zip(mp.peaks_function, mp.peaks_position, mp.peaks_height, mp.peaks_width)]
     if mp.basis_function:
-        vals.append(mp.basis_function(x))
+        vals.append(float(mp.basis_function(x)))
     return vals
+
+
+def is_max(v, vals):
+    m = max(vals)
+    return close(v, m, 1e-9, 1e-9 * max(1.0, abs(m)))
 
 
 def ev_mp(d):
@@ -802,7 +880,7 @@ def ev_mp(d):
         steps.append("%d,%s" % (n, fbits(v)))
         if orc is None:
             sep = mp_values(mp, x)
-            if v != max(sep):
+            if not is_max(v, sep):
                 orc = "after change %d the evaluation %r is not the maximum %r of its peak functions" % (j + 1, v, max(sep))
     final = ";".join("%s,%s,%s,%s,%s" % (PFL[f], fbits(h), fbits(w), fl(p), fl(l)) for f, p, h, w, l in
                      zip(mp.peaks_function, mp.peaks_position, mp.peaks_height, mp.peaks_width, mp.last_change_vector)) or "-"
@@ -819,7 +897,7 @@ def ev_mp(d):
 def ev_mpcall(d):
     x = d["x"]
     peaks = d["peaks"]          # [fn letter, pos, h, w]
-    vals = [PF[p[0]](x, p[1], p[2], p[3]) for p in peaks]
+    vals = [O_PEAK[p[0]](x, p[1], p[2], p[3]) for p in peaks]
     mp = movingpeaks.MovingPeaks(dim=len(x), random=RecRandom(0), npeaks=max(1, len(peaks)), period=0)
     mp.peaks_function = [PF[p[0]] for p in peaks]
     mp.peaks_position = [list(p[1]) for p in peaks]
@@ -835,7 +913,7 @@ def ev_mpcall(d):
     except ValueError:
         return Case(d, [" ".join(toks)], ["error"], None, tag="mp/call/empty", nontrivial=False)
     allv = vals + ([basis] if basis is not None else [])
-    orc = None if v == max(allv) else "evaluation %r is not the maximum of %r" % (v, allv)
+    orc = None if is_max(v, allv) else "evaluation %r is not the maximum of the peak functions %r" % (v, allv)
     return Case(d, [" ".join(toks)], [fbits(v)], orc, tag="mp/call/n=%d%s" % (len(peaks), "+basis" if basis is not None else ""),
                 tol=TOL)
 
@@ -877,7 +955,7 @@ def ev_mpcount(d):
                 orc = "after %d counted evaluations nevals = %d" % (j + 1, mp.nevals)
             elif changed != want:
                 orc = "evaluation %d with period %d: change %s" % (j + 1, period, "triggered" if changed else "not triggered")
-            elif v != before:
+            elif not close(v, before, 1e-9, 1e-9 * max(1.0, abs(before))):
                 orc = "evaluation %d returned %r, the maximum of the peak functions before it was %r" % (j + 1, v, before)
             elif lims is not None and not (lims[0] <= len(mp.peaks_function) <= lims[1]):
                 orc = "after evaluation %d there are %d peaks, limits [%d, %d]" % (j + 1, len(mp.peaks_function), lims[0], lims[1])
@@ -888,8 +966,72 @@ def ev_mpcount(d):
     return Case(d, [" ".join(toks)], [expect], orc, tag="mp/count/sc%d/period=%d" % (d["scenario"], period), tol=TOL)
 
 
+def ev_rand(d):
+    """benchmarks.rand: one objective, the value is the next draw of random.random() (in [0, 1)), whatever the individual"""
+    from tape import Tape
+    x = d["x"]
+    with Tape(rng=_pyrandom.Random(d["seed"])) as tp:
+        res = benchmarks.rand(as_ind(d, x))
+    draws = [t_[1] for t_ in tp.draws if t_[0] == "random"]
+    line = "C20 rand %s %s" % (fl(x), fl(draws + d.get("spare", [])))
+    orc = arity_error("rand", res, 1)
+    if orc is not None:
+        return Case(d, [line], ["?"], orc, tag="f/rand/arity")
+    val = float(res[0])
+    if len(tp.draws) != 1 or tp.draws[0][0] != "random":
+        orc = "TAPE: rand made the draws %r, one random() expected" % ([t_[0] for t_ in tp.draws],)
+    elif val != draws[0] or not (0.0 <= val < 1.0):
+        orc = "rand returned %r, the draw of random() was %r" % (val, draws[0])
+    return Case(d, [line], ["%s %d" % (fbits(val), len(d.get("spare", [])))], orc, tag="f/rand", tol=TOL)
+
+
+def ev_stack(d):
+    """@translate(t) @rotate(R) @scale(f): the innermost function must receive scale^-1(rotate^-1(translate^-1(x)))"""
+    t, f, x = d["t"], d["f"], d["x"]
+    R = numpy.array(d["R"], dtype=float)
+    rec = Recorder()
+    rot = btools.rotate(R)
+    fn = btools.translate(list(t))(rot(btools.scale(list(f))(rec)))
+    fn(as_ind(d, x), *EXTRA_ARGS, **EXTRA_KARGS)
+    got = [float(v) for v in rec.got]
+    # undo the three inverse transforms: x = R (got * f) + t
+    back = R.dot(numpy.array([g * c for g, c in zip(got, f)])) + numpy.array(t)
+    nx = max(1.0, max([abs(v) for v in x] + [abs(v) for v in back] or [0.0]))
+    orc = None
+    if len(got) != len(x) or any(abs(a - b) > 1e-9 * nx for a, b in zip(back, x)):
+        orc = "stacked decorators handed %r; transforming it forward gives %r, individual %r" % (got, list(back), x)
+    orc = orc or passthrough_error(rec)
+    # all three setters stay reachable on the stacked function (functools.wraps copies them)
+    if orc is None and not all(hasattr(fn, a) for a in ("translate", "rotate", "scale")):
+        orc = "CORRESPONDENCE: stacked function lost a setter"
+    return Case(d, ["C20 stack %s %s %s %s" % (fl(t), fl2(rot.matrix.tolist()), fl(f), fl(x))], [fl(got)], orc,
+                tag="dec/stack/%s/n=%d" % (d.get("cat", "rand"), len(x)), tol=TOL)
+
+
+def ev_mpinit(d):
+    """MovingPeaks.__init__: the state drawn from the random source, in the code's order"""
+    rnd = RecRandom(d["seed"])
+    mp, sc = mp_build(d, rnd)
+    lims, cfg_n0 = mp_limits(d)
+    n = len(mp.peaks_function)
+    orc = None
+    lens = set(map(len, (mp.peaks_position, mp.peaks_height, mp.peaks_width, mp.last_change_vector)))
+    if n != cfg_n0 or lens != {n}:
+        orc = "constructed with %d peaks (list lengths %r), configured %d" % (n, sorted(lens), cfg_n0)
+    elif any(len(p) != d["dim"] or not all(sc["min_coord"] <= c <= sc["max_coord"] for c in p) for p in mp.peaks_position):
+        orc = "initial peak positions %r not %d coordinates in [%r, %r]" % (mp.peaks_position, d["dim"], sc["min_coord"], sc["max_coord"])
+    elif any(not (min(sc["min_height"], sc["uniform_height"] or sc["min_height"]) <= h <= max(sc["max_height"], sc["uniform_height"])) for h in mp.peaks_height):
+        orc = "initial heights %r outside the configured range" % (mp.peaks_height,)
+    final = ";".join("%s,%s,%s,%s,%s" % (PFL[f], fbits(h), fbits(w), fl(p), fl(l)) for f, p, h, w, l in
+                     zip(mp.peaks_function, mp.peaks_position, mp.peaks_height, mp.peaks_width, mp.last_change_vector)) or "-"
+    fns = "".join(PFL[f] for f in mp.peaks_function) or "-"
+    toks = ["C20", "mpinit", str(d["dim"]), fns, fbits(sc["uniform_height"]), fbits(sc["uniform_width"])] + rnd.draws
+    return Case(d, [" ".join(toks)], ["%s 0" % final], orc, tag="mp/init/sc%d" % d["scenario"], tol=TOL)
+
+
 EV = {"f": ev_single, "shekel": ev_shekel, "mo": ev_mo, "bin": ev_bin, "b2f": ev_b2f, "translate": ev_translate,
-      "scale": ev_scale, "rotate": ev_rotate, "noise": ev_noise, "bound": ev_bound, "mp": ev_mp, "mpcall": ev_mpcall, "mpcount": ev_mpcount}
+      "scale": ev_scale, "rotate": ev_rotate, "noise": ev_noise, "bound": ev_bound, "mp": ev_mp, "mpcall": ev_mpcall, "mpcount": ev_mpcount, "rand": ev_rand, "stack": ev_stack,
+      "mpinit": ev_mpinit}
 
 
 def evaluate(d):
@@ -948,6 +1090,37 @@ def gen_single(rng, per):
     yield {"k": "shekel", "x": [0.5], "a": SHEKEL_A, "c": SHEKEL_C, "cat": "short-x"}
     yield {"k": "shekel", "x": [0.5, 0.5], "a": SHEKEL_A[:3], "c": SHEKEL_C, "cat": "short-a"}
     yield {"k": "shekel", "x": [0.5, 0.5, 0.1], "a": SHEKEL_A, "c": SHEKEL_C[:2], "cat": "long-x"}
+
+
+def gen_rand(rng, n):
+    for _ in range(n):
+        yield {"k": "rand", "x": [rng.uniform(-5, 5) for _ in range(rng.randint(0, 30))], "seed": rng.randrange(1 << 30),
+               "spare": [rng.random() for _ in range(rng.randint(0, 2))]}
+
+
+def gen_stack(rng, n):
+    for _ in range(n):
+        m = rng.choice([1, 2, 3, 4, 6, 10])
+        kind = rng.choice(["perm", "angle", "qr", "int"])
+        if kind == "perm":
+            p_ = list(range(m)); rng.shuffle(p_)
+            R = numpy.zeros((m, m)); R[range(m), p_] = 1.0
+        elif kind == "angle":
+            R = numpy.identity(m)
+            for i in range(0, m - 1, 2):
+                c, s_ = rng.choice([(0.6, 0.8), (0.8, -0.6), (0.0, 1.0), (-1.0, 0.0)])
+                R[i:i + 2, i:i + 2] = rot2(c, s_)
+        elif kind == "int":
+            R = numpy.identity(m)
+            for _k in range(m):
+                i, j = rng.randrange(m), rng.randrange(m)
+                if i != j:
+                    R[i] += rng.choice([1, -1, 2]) * R[j]
+        else:
+            R, _r = numpy.linalg.qr(numpy.array([[rng.gauss(0, 1) for _ in range(m)] for _ in range(m)]))
+        yield {"k": "stack", "t": [dyadic(rng) for _ in range(m)], "R": R.tolist(),
+               "f": [rng.choice([1.0, 2.0, 0.5, 0.25, 4.0, -2.0, 8.0]) for _ in range(m)],
+               "x": [dyadic(rng) for _ in range(m)], "cat": kind}
 
 
 def gen_mo(rng, per):
@@ -1196,7 +1369,7 @@ def gen_mp(rng, nrun, changes):
                 lo = rng.choice([1, 1, 2, base // 2])
                 hi = rng.choice([base, base + 5, 2 * base])
                 d["npeaks"] = [lo, rng.randint(lo, hi), hi]
-                d["sev"] = rng.choice([0.1, 0.5, 1.0, 0.3])
+                d["sev"] = rng.choice([0.1, 0.5, 1.0, 0.3, 2.0, 5.0])
                 if rng.random() < 0.3:
                     d["npeaks"] = [lo, lo, lo]            # degenerate interval
             if rng.random() < 0.3:
@@ -1209,6 +1382,8 @@ def gen_mp(rng, nrun, changes):
             if rng.random() < 0.2:
                 d["lambda_"] = rng.choice([0.0, 1.0, 0.5])
             yield d
+            e0 = dict(d, k="mpinit"); e0.pop("changes")
+            yield e0
             # counted evaluations with a small period (negative / zero period: never a change)
             e = dict(d, k="mpcount", period=rng.choice([1, 2, 3, 5, 7, 0, -3, 10]), evals=rng.randint(1, 25))
             e.pop("changes")
@@ -1219,21 +1394,37 @@ def gen_mp(rng, nrun, changes):
             yield e
 
 
+# functions excluded from the numpy-individual twins (none: before fix F26 chuang_f3 built its wrap-around block with
+# `individual[-2:] + individual[:2]`, which ADDS numpy arrays element-wise instead of concatenating them)
+NUMPY_SKIP = set()
+
+
+def numpy_twin(d, rng):
+    """the same case with the individual handed over as a numpy array (DEAP's ndarray-based individuals)"""
+    if d["k"] in ("f", "shekel", "mo", "bin", "b2f", "scale", "rotate", "translate", "stack", "rand") \
+            and not d.get("reset") and d.get("name") not in NUMPY_SKIP \
+            and rng.random() < (0.6 if d.get("name") == "chuang_f3" else 0.2):
+        return dict(d, np=True)
+    return None
+
+
 def generate(tier, rng, mult):
+    """streams in the order of the statement's clauses (a time budget truncates from the end); the seed varies the
+    inputs inside every stream, never which streams run"""
     thorough = tier == "thorough"
     per = (100 if thorough else 10) * mult
-    for d in gen_bin(rng, 12 if thorough else 9, (100000 if thorough else 6000) * mult):
-        yield d
-    for d in gen_b2f(rng, (60000 if thorough else 5000) * mult, 5 if thorough else 4):
-        yield d
-    for d in gen_single(rng, per * 2):
-        yield d
-    for d in gen_mo(rng, per * 2):
-        yield d
-    for d in gen_dec(rng, (60000 if thorough else 4000) * mult):
-        yield d
-    for d in gen_mp(rng, (150 if thorough else 10) * mult, 50):
-        yield d
+    streams = [gen_single(rng, per * 2), gen_rand(rng, (400 if thorough else 40) * mult), gen_mo(rng, per * 2),
+               gen_mp(rng, (150 if thorough else 10) * mult, 50),
+               gen_stack(rng, (6000 if thorough else 400) * mult),
+               gen_dec(rng, (60000 if thorough else 4000) * mult),
+               gen_b2f(rng, (60000 if thorough else 5000) * mult, 5 if thorough else 4),
+               gen_bin(rng, 12 if thorough else 9, (100000 if thorough else 6000) * mult)]
+    for st in streams:
+        for d in st:
+            yield d
+            t = numpy_twin(d, rng)
+            if t is not None:
+                yield t
 
 
 # ------------------------------------------------------------------------------------------
